@@ -11,7 +11,7 @@ import json, os
 from . import lib
 
 EVENTS = ["MakeFan", "SetFan", "ApplyEff", "ApplyGeo", "ApplyBlock", "FanSums", "IterEff", "IterGeo", "IterBlock", "KLStep",
-          "DetPair", "SetDetPair", "ProjFanSums", "EffFanSums", "IterEffNoModel", "MLE", "MLEStep", "Abort"]
+          "DetPair", "SetDetPair", "ProjFanSums", "EffFanSums", "IterEffNoModel", "MLE", "MLEStep", "NormEff", "Reuse", "Abort"]
 MUST = [e for e in EVENTS if e != "Abort"]
 
 
@@ -101,7 +101,7 @@ def run(ctx):
                 if rec["e"] in count:
                     count[rec["e"]] += 1
                 ctx.nontrivial(str(cid) + rec["e"] + str(rec.get("apply", "")) + str(rec.get("src", "")) + str(rec.get("it", "")) + str(rec.get("seg", "")) + str(rec.get("ax", "")) +
-                               str(rec.get("kind", "")) + str(rec.get("j", "")) + str([rec.get(k) for k in ("exact", "doGeo", "doBlock", "niter", "neff")] if rec["e"] == "MLE" else ""))
+                               str(rec.get("kind", "")) + str(rec.get("j", "")) + str(rec.get("round", "")) + str(rec.get("data", "")) + str([rec.get(k) for k in ("exact", "doGeo", "doBlock", "niter", "neff")] if rec["e"] == "MLE" else ""))
         if at is not None or not ok:
             ctx.violation("trace not consumed (line %s)" % at, p)
             continue
